@@ -169,7 +169,7 @@ def r2_edge_provenance(ctx):
                 # the gates are pre-filtered: `.filter(|g| g.kind() == GateKind::Endpoint)` feeds the loop that builds the edge
                 st_ = f.expr_operand(r['ops'][r['fields'].index('start')], b, i)
                 for x in walk(st_):
-                    if x[0] == 'call' and x[1].endswith('Iterator::filter') and len(x[2]) == 2:
+                    if x[0] == 'call' and x[1].endswith(('Iterator::filter', 'Iterator::find')) and len(x[2]) == 2:
                         cl = peel(x[2][1])
                         g2 = P.fns.get(cl[1][len('closure:'):]) if cl[0] == 'agg' and str(cl[1]).startswith('closure:') else None
                         for _, t2 in (ret_trees(g2) if g2 else []):
@@ -180,7 +180,7 @@ def r2_edge_provenance(ctx):
                                 endpoint_guard = True
             ctx.check(endpoint_guard, 'edge-only-for-endpoints:%s' % key.split('::')[-1], 'an edge is created only for gates of kind Endpoint', f.where(b), [show_atom(a) for a in atoms][:3])
             start = peel(fields['start'])
-            s_ok = any(x[0] == 'call' and x[1].endswith('::next') for x in walk(start)) and not any(x[0] == 'field' and x[2] == 'endpoint' for x in walk(start))
+            s_ok = any(x[0] == 'call' and x[1].endswith(('::next', 'Iterator::find')) for x in walk(start)) and not any(x[0] == 'field' and x[2] == 'endpoint' for x in walk(start))
             end = fields['end']
             e_ok = any(x[0] == 'field' and x[2] == 'endpoint' for x in walk(end)) and any(x[0] in ('phi', 'var') for x in walk(end))
             folds = [x for x in walk(end) if x[0] == 'call' and x[1].endswith('Iterator::fold') and len(x[2]) == 3 and any(y[0] == 'call' and y[1].endswith('Gate::path_iter') for y in walk(x[2][0]))]
